@@ -92,6 +92,12 @@ func init() {
 				n = 1 // a sequential request first
 			}
 			atomic.StoreInt32(&curRound, int32(round))
+			// burst rounds: as many proving requests as allowed, sent at the same instant, so that several of them are inside the prover
+			// together (one proving, the others queued behind whatever serialises them)
+			burst := round >= 2 && round%2 == 0 && !(cs.SlowMs > 0 && round == 1)
+			if burst {
+				n = max(cs.MaxClient, 3)
+			}
 			ids := make([]string, n)
 			reqs := map[string]*builtReq{}
 			kinds := map[string]reqKind{}
@@ -100,6 +106,17 @@ func init() {
 			for i := 0; i < n; i++ {
 				ids[i] = fmt.Sprintf("c%d", i+1)
 				k := cs.Kinds[rng.Intn(len(cs.Kinds))]
+				if burst {
+					var proving []reqKind
+					for _, kk := range cs.Kinds {
+						if kk.Method == "POST" && (kk.Body == "valid" || kk.Body == "unsat") {
+							proving = append(proving, kk)
+						}
+					}
+					if len(proving) > 0 {
+						k = proving[rng.Intn(len(proving))]
+					}
+				}
 				if cs.SlowMs > 0 && round == 1 && i == 0 {
 					for _, kk := range cs.Kinds {
 						if kk.Method == "POST" && kk.Body == "valid" {
@@ -121,6 +138,9 @@ func init() {
 			offsets := make([]time.Duration, n)
 			for i := range offsets {
 				offsets[i] = time.Duration(rng.Intn(3000)) * time.Microsecond
+				if burst {
+					offsets[i] = 0
+				}
 			}
 			stopScrape := make(chan struct{})
 			var swg sync.WaitGroup
